@@ -1,9 +1,51 @@
-(** Property C05 — theorems only; proofs live in Proofs/. *)
-From Coq Require Import String List.
-From Zog Require Import Model.Val Model.Engine Spec.Sem Proofs.Refine.
+(** Property C05 — Catch replaces any failure of its own node, and only of its own node. *)
+From Coq Require Import String List ZArith Bool.
+From Zog Require Import Model.Val Model.Engine Spec.Sem Spec.Satisfies Proofs.Refine Proofs.Indep Proofs.CatchP.
+Import ListNotations.
 
-(** The executable engine (flags, shared child context, mutable path stack, one issue log) computes
-    exactly the context-free semantics, for every schema, mode, input and destination. *)
+(** own node: never an issue; the destination is the catch value exactly when something failed *)
+Theorem C05_catch_own_node : forall m p dat d e0 c, p_catch p = Some c -> p_pts p = [] ->
+  rerrored (fst (sem_prim m p dat d e0)) = false
+  /\ snd (sem_prim m p dat d e0) =
+     let absent := match m with Parse => parse_zero dat | Validate => go_zero d end in
+     if absent then
+       match p_def p with
+       | Some dv => if all_ok (p_tests p) dv then dv else c
+       | None => match p_req p with Some _ => c | None => d end
+       end
+     else match m with
+          | Parse => match p_coerce p dat with
+                     | Some v => if all_ok (p_tests p) v then v else c
+                     | None => c
+                     end
+          | Validate => if all_ok (p_tests p) d then d else c
+          end.
+Proof. exact catch_own_node. Qed.
+Print Assumptions C05_catch_own_node.
+
+(** only its own node: replacing the schema of one struct field by any other (with or without
+    Catch) leaves the entries every other field contributes, and every other field's destination
+    value, exactly as they were — whatever the visit order, the input and the mode *)
+Theorem C05_catch_is_local : forall m pv fs1 fs2 k tags c c' dfs e,
+  fields_pt_free (fs1 ++ (k, (tags, c)) :: fs2) = true -> fields_pt_free (fs1 ++ (k, (tags, c')) :: fs2) = true ->
+  NoDup (map fst (fs1 ++ (k, (tags, c)) :: fs2)) ->
+  let r  := sem_fields (sem m) m pv (fs1 ++ (k, (tags, c)) :: fs2) dfs e in
+  let r' := sem_fields (sem m) m pv (fs1 ++ (k, (tags, c')) :: fs2) dfs e in
+  exists own own', fst r  = (flat_map (contrib_entries m pv dfs) fs1 ++ own  ++ flat_map (contrib_entries m pv dfs) fs2)%list
+                /\ fst r' = (flat_map (contrib_entries m pv dfs) fs1 ++ own' ++ flat_map (contrib_entries m pv dfs) fs2)%list
+                /\ forall k', k' <> k -> dlookup k' (snd r) = dlookup k' (snd r').
+Proof. exact one_field_is_local. Qed.
+Print Assumptions C05_catch_is_local.
+
+(** slice elements are independent of one another: element i contributes what it would contribute alone *)
+Theorem C05_elements_are_independent : forall m e, pt_free e = true -> forall items zero done i e0,
+  sem_elems_parse (sem m e) items zero done i e0
+  = (flat_map (fun iv => under (idx_seg (fst iv)) (fst (sem m e (DVal (snd iv)) zero false))) (combine (seq i (length items)) items),
+     (done ++ map (fun v => snd (sem m e (DVal v) zero false)) items)%list).
+Proof. exact elements_are_independent. Qed.
+Print Assumptions C05_elements_are_independent.
+
+(** and the engine, whose catch flags live on a context shared by all siblings, computes exactly this *)
 Theorem C05_engine_computes_semantics : forall m s dat d, run m s dat d = sem_run m s dat d.
 Proof. exact run_is_sem_run. Qed.
 Print Assumptions C05_engine_computes_semantics.
